@@ -86,7 +86,9 @@ def regE (st : St) (e : Option Nat) : St × String :=
 def regI (st : St) (e : Option Nat) : St × String :=
   ({ st with items := st.items.push e }, s!"i{st.items.size}")
 
-def intArgs (xs : List Sexp) : List Int := xs.filterMap Sexp.int?
+/-- integer arguments; the atom `null` (a JSON null in an `unjson` document) is the zero value -/
+def intArgs (xs : List Sexp) : List Int :=
+  xs.filterMap (fun x => match x with | .atom "null" => some 0 | _ => x.int?)
 
 def jsonOf (xs : List String) : String := "[" ++ joinSep "," xs ++ "]"
 
